@@ -210,6 +210,18 @@ def int_semantics(f, var, value):
     for a in atoms(f):
         if a[0] == "inrange" and a[1] == var and isinstance(a[2], int) and isinstance(a[3], int):
             asg[a] = a[2] <= value < a[3] + (1 if a[4] else 0)
+        elif a[0] == "eq":
+            def num0(s):
+                try:
+                    return int(str(s).replace("_", ""))
+                except Exception:
+                    return None
+            if a[1] == var and num0(a[2]) is not None:
+                asg[a] = value == num0(a[2])
+            elif a[2] == var and num0(a[1]) is not None:
+                asg[a] = value == num0(a[1])
+            else:
+                return None
         elif a[0] == "cmp":
             op, l, r = a[1], a[2], a[3]
             def num(s):
